@@ -18,3 +18,11 @@ chk('C15', 'Hypothesis workbook generator; differential partial-load vs full-loa
     'Random multi-book workbooks on disk; every formula cell as a singleton output plus random sets of <= 4 outputs are loaded with from_ranges and compared with the fully loaded model and with the independent evaluator; a second finish()/complete() must not change graph or values.',
     'Trusts xlref.wb on the restricted grammar and the full-load path as second oracle; unpopulated outputs not asserted.',
     'DESIGN.md 2/C15')
+chk('C09', 'Hypothesis workbook generator with a tricky-constant alphabet; round-trip and fixed-point oracle',
+    'Random workbooks whose constants include text that looks like formulas, errors, the blank marker, quotes, newlines, extreme numbers, and sheet names that need quoting are exported with to_dict, sent through json and re-imported: values of every cell must agree before/after and with the independent evaluator, the second export must equal the first (third equals second), and every exported formula must re-parse to itself.',
+    'Round trip needs no reference semantics; the load comparison trusts xlref.wb. Formula-tree-level round trip (all C01 trees) is asserted in C01.',
+    'DESIGN.md 2/C09')
+chk('C16', 'Hypothesis workbook generator; written books read back and compared cell by cell with the solution',
+    'Random workbooks, plain and overridden calculations, three sinks (fresh books, loaded books of a partial model, disk + openpyxl data_only): every cell of every solved node must sit at its own book/sheet/coordinates with the normalised value, cells outside the solution must be untouched, compare() with the written files must be empty.',
+    'The solution is taken from the model (its correctness is C03/C07); an openpyxl cell holding "" counts as empty; circular models are not written.',
+    'DESIGN.md 2/C16')
